@@ -1,3 +1,4 @@
+import re
 # C07 — the formula parser computes the true composition of every well-formed formula (DESIGN.md §C07) — PARTIAL, see DESIGN.md
 def symbols(run, prefix='C07'):
     srcs = [run.harness('c07_sym.c'), run.src('xraylib-parser.c'), run.src('xrayglob.c'), run.src('xrayvars.c'), run.src('atomicweight.c'), run.src('xraylib-error.c'), run.src('xraylib-aux.c')]
@@ -11,7 +12,7 @@ def symbols(run, prefix='C07'):
 
 def check(run):
     run.assumptions += ['allocation never fails', 'strdup bounded copy, formatting stubbed',
-                        'NOT covered by a solver verdict in this round: CompoundParserSimple (string -> element list); see DESIGN.md C07 for what was tried']
+                        'see DESIGN.md C07 for the earlier monolithic attempts (no verdict) that the shape split replaced']
     run.parallel(symbols(run))
 
 
@@ -131,7 +132,95 @@ def check_b(run):
     mod = bcheck.load_units(run, ['xraylib-parser.c'])
     bcheck.run_groups(run, [('C07/assemble', lambda cl: b_assemble(cl, mod, H), ())])
 
+# ---- Engine A: ONE nesting level of the real scanner, case split by shape (harness/c07_unit.c, c07_tramp.c)
+import os, subprocess
+from vlib import core
+PARSER_FN = '__CPROVER_file_local_xraylib_parser_c_CompoundParserSimple'
+NCLASS = 9
+SCANNER_FNS = ['xraylib-parser.c:CompoundParserSimple']
+
+
+def build_unit(run, L, extra=()):
+    """compile the unit (real parser #included) once, redirect every call to CompoundParserSimple INSIDE it to cps_stub; returns (gb, witness gb)"""
+    out = []
+    for wit in (False, True):
+        a = os.path.join(run.tmp, 'c07unit_L%d_%s%s.gb' % (L, '_'.join(extra), '_w' if wit else ''))
+        cmd = ['goto-cc', '--export-file-local-symbols'] + run.inc + ['-DLMAX=%d' % L] + ['-D' + d for d in extra] + (['-DWITNESS'] if wit else []) + ['-c', run.harness('c07_unit.c'), '-o', a]
+        r = subprocess.run(cmd, capture_output=True, text=True)
+        if r.returncode != 0: raise core.BuildError('goto-cc c07_unit.c: ' + (r.stderr or r.stdout)[-2000:])
+        a2 = a[:-3] + '_i.gb'
+        r = subprocess.run(['goto-instrument', '--replace-calls', PARSER_FN + ':cps_stub', a, a2], capture_output=True, text=True)
+        if r.returncode != 0: raise core.BuildError('goto-instrument --replace-calls: ' + (r.stderr or r.stdout)[-2000:])
+        sh = subprocess.run(['goto-instrument', '--show-goto-functions', a2], capture_output=True, text=True).stdout
+        ncalls_stub = len(re.findall(r'CALL[^\n]*\bcps_stub\(', sh)); ncalls_real = len(re.findall(r'CALL[^\n]*%s\(' % PARSER_FN, sh))
+        if ncalls_stub < 1 or ncalls_real != 0:
+            raise core.BuildError('call redirection failed: %d calls of cps_stub, %d remaining direct calls of the scanner (did the function get renamed?)' % (ncalls_stub, ncalls_real))
+        out.append(a2)
+    return tuple(out)
+
+
+def scanner_batches(run, prefix, L, lengths, per_batch, extra=(), timeout=None, tag=''):
+    thunks = []
+    try:
+        unit = build_unit(run, L, extra)
+    except core.BuildError as e:
+        ob = core.Ob(prefix + '/scanner/build', 'A:cbmc', SCANNER_FNS, '', 'build of the scanner unit'); ob.reason = 'BUILD: ' + str(e); run.add_ob(ob); return []
+    def batch(n, frm, cnt, wit):
+        oid = '%s/scanner%s/n%d/%d-%d' % (prefix, tag, n, frm, frm + cnt - 1)
+        try:
+            gbs = []
+            for w in ((False, True) if wit else (False,)):
+                tr = os.path.join(run.tmp, 'c07tr_%s_%d_%d%s.gb' % (tag, n, frm, '_w' if w else ''))
+                r = subprocess.run(['goto-cc'] + run.inc + ['-DSHAPE_N=%d' % n, '-DSHAPE_FROM=%d' % frm, '-DSHAPE_COUNT=%d' % cnt, '-c', run.harness('c07_tramp.c'), '-o', tr], capture_output=True, text=True)
+                if r.returncode != 0: raise core.BuildError('goto-cc c07_tramp.c: ' + (r.stderr or r.stdout)[-1500:])
+                ab = tr[:-3] + '_l.gb'
+                r = subprocess.run(['goto-cc', unit[1 if w else 0], tr, '-o', ab], capture_output=True, text=True)
+                if r.returncode != 0: raise core.BuildError('link: ' + (r.stderr or r.stdout)[-1500:])
+                gbs.append(ab)
+            if len(gbs) == 1: gbs.append(None)
+        except core.BuildError as e:
+            ob = core.Ob(oid, 'A:cbmc', SCANNER_FNS, '', 'scanner batch'); ob.reason = 'BUILD: ' + str(e); run.add_ob(ob); return ob
+        ob = run.cbmc(oid, [], 'harness_shapes', unwind=20, unwindset=['harness_shapes.%d:%d' % (k, max(cnt + 1, 20)) for k in range(4)], backends=('cadical', 'kissat'), prebuilt=tuple(gbs), witness=wit, leak=True, object_bits=12,
+                      functions=SCANNER_FNS, timeout=timeout,
+                      bounds='strings of exactly %d characters, shapes %d..%d of %d (class of every character fixed: upper, lower, digit 1-9, 0, . ( ) space, other); <= 2 groups per level, nested results of <= 2 elements; counts/subscript values on the grid 0.5..8 (%s)'
+                             % (n, frm, frm + cnt - 1, NCLASS ** n, 'full doubles' if 'VH_FULL_DOUBLES' in extra else 'exact arithmetic'),
+                      what='one nesting level of the real scanner == reference grammar: accepts exactly the well-formed strings, element list strictly ascending, counts = algebraic expansion with nested results scaled by their multiplier, text unmodified, one error on rejection, everything but the result released (memory-leak check, double free, bounds)')
+        for f in (gbs + [t[:-5] + '.gb' for t in gbs if t]):
+            try:
+                if f: os.unlink(f)
+            except OSError: pass
+        return ob
+    first = True
+    for n in lengths:
+        total = NCLASS ** n
+        for frm in range(0, total, per_batch(n)):
+            cnt = min(per_batch(n), total - frm)
+            thunks.append(lambda n=n, frm=frm, cnt=cnt, wit=(frm == 0): batch(n, frm, cnt, wit))
+    return thunks
+
+
+def combine(run, prefix='C07'):
+    srcs = [run.harness('c07_add.c'), run.src('xraylib-error.c'), run.src('xraylib-aux.c'), run.src('xrayglob.c'), run.src('xrayvars.c'), run.src('atomicweight.c')]
+    shapes = [(1, 1), (1, 2), (2, 1), (2, 2), (1, 3), (3, 1)] + ([(2, 3), (3, 2), (3, 3)] if run.tier == 'thorough' else [])
+    return [lambda a=a, b=b: run.cbmc('%s/combine/%dx%d' % (prefix, a, b), srcs, 'harness_add', unwind=a + b + 2, backends=('cadical', 'kissat'), functions=['add_compound_data', 'xraylib-parser.c:compareInt', 'FreeCompoundData'],
+                                      leak=True, defines=('NA=%d' % a, 'NB=%d' % b), object_bits=10, 
+                                      bounds='A with %d and B with %d elements (symbolic ascending atomic numbers), fractions and weights on the grid k/4 (exact arithmetic)' % (a, b),
+                                      what='add_compound_data: strictly ascending union of the elements, mass fractions wA*fA + wB*fB, inputs untouched, fresh arrays, no leak')
+            for a, b in shapes]
+
+
+def scanner(run, prefix='C07'):
+    run.assumptions += ['scanner: modular in the nesting depth - calls of CompoundParserSimple inside the unit are replaced (goto-instrument --replace-calls) by a stub that returns ANY result allowed by the function\'s own contract; '
+                        'the one-level verdict extends to every depth by induction (base: strings without groups are among the shapes)',
+                        'scanner: ctype = C/POSIX ASCII classes; characters are class representatives (the scanner only tests classes and punctuation); what a symbol / a subscript denotes is symbolic per position (abstract element table, abstract strtod value, exact strtod read length)',
+                        'scanner: realloc = typed fixed-capacity blocks (in place, or move+copy+free when the block is smaller), strndup = 8-byte blocks, O(1) error objects, typed bsearch / single-insertion qsort (precondition checked) with the REAL comparators']
+    if run.tier == 'thorough':
+        return scanner_batches(run, prefix, 4, [0, 1, 2, 3, 4], lambda n: 1 if n < 2 else 9 if n == 2 else 27 if n == 3 else 81)
+    return scanner_batches(run, prefix, 3, [0, 1, 2, 3], lambda n: 9 if n < 3 else 27)
+
+
 _check_a = check
 def check(run):
     _check_a(run)
+    run.parallel(scanner(run) + combine(run))
     check_b(run)
